@@ -415,7 +415,7 @@ _cases_real = cases
 
 def cases(tier):   # noqa: F811
     cs = _cases_real(tier)
-    cs += [SegTreeFP(2), SegTreeFP(4), SegTreeFP(4, updates=2)]
+    cs += [SegTreeFP(2), SegTreeFP(4), SegTreeFP(2, updates=2)]
     if tier == "thorough":
-        cs += [SegTreeFP(8), SegTreeFP(8, updates=2)]
+        cs += [SegTreeFP(4, updates=2), SegTreeFP(8)]
     return cs
